@@ -117,6 +117,17 @@ CHECKS = {
         "resource limits on deeply nested text) is excluded and counted.",
         "4/C04",
     ),
+    "C06": (
+        "metamorphic runtime monitor: chained builder vs step-by-step materialisation; acceptance probes; merge counter",
+        "Step sequences from the shared generator (boosted: consecutive extends over a 3-name target pool, "
+        "select/drop/select chains, interior order_rows before every operator kind) are built as one chained pipeline and "
+        "evaluated on Pandas; the result must equal applying each step to a fresh description of the materialised "
+        "previous result. A probe step (select/extend/order/drop naming a removed column, join with the common-key "
+        "check) must be accepted by the chained builder iff it is accepted on the materialised prefix. A wrapper on "
+        "try_to_merge_ops counts the merges that really happened.",
+        "Trusted: the Pandas executor evaluating single steps on materialised frames.",
+        "4/C06",
+    ),
 }
 
 NOT_BUILT = "check not built yet (build in progress, see DESIGN.md section 8)"
